@@ -167,14 +167,14 @@ def simulate(cfg, fee, pct, num, depth, seed, dest_dir):
     return seqs, r
 
 
-def trace_tlc(steps_file, mon, fee, pct, exclude="", timeout=1800, invs=None):
+def trace_tlc(steps_file, mon, fee, pct, exclude="", timeout=1800, invs=None, judge=""):
     """Leg C step 2: TLC validates recorded implementation steps (conformance + ghost ledger)."""
     d = os.path.dirname(steps_file)
     cfg = os.path.join(d, "trace_%s.cfg" % mon)
     vlib.write_cfg(cfg, "SPECIFICATION Spec\nINVARIANTS %s\nCHECK_DEADLOCK FALSE\n" % " ".join(invs or ["C06a", "C06b"]))
     report = os.path.join(d, "trace_report_%s%s.json" % (mon, "_x" if exclude else ""))
     env = {"PM_STEPS": steps_file, "PM_FEE": fee, "PM_PCT": pct, "PM_REVOKE_VALIDATES": _bool(SWITCHES["revokeValidates"]),
-           "PM_MON": mon, "PM_REPORT": report, "PM_EXCLUDE": exclude}
+           "PM_MON": mon, "PM_REPORT": report, "PM_EXCLUDE": exclude, "PM_JUDGE": judge}
     r = vlib.tlc("TracePayments", cfg, env=env, workers=1, timeout=timeout, name="trace-payments", heap="12g")
     r["report"] = json.load(open(report))
     return r
